@@ -6,6 +6,7 @@ from __future__ import annotations
 import json
 import os
 import re
+import shutil
 import subprocess
 import time
 
@@ -72,8 +73,10 @@ def run_tlc(
         fh.write(cfg)
     meta = os.path.join(run.dir, f"meta-{name}")
     libs = [SPEC, os.path.join(SPEC, "gen"), run.dir] + (extra_lib or [])
+    jtmp = os.path.join(run.dir, f"jtmp-{name}")  # TLC leaves an empty tlc-<n> directory in java.io.tmpdir on every start
+    os.makedirs(jtmp, exist_ok=True)
     cmd = [
-        "java", "-XX:+UseParallelGC", "-Xss256m", f"-Xmx{heap}", "-DTLA-Library=" + ":".join(libs),
+        "java", "-XX:+UseParallelGC", "-Xss256m", f"-Xmx{heap}", "-Djava.io.tmpdir=" + jtmp, "-DTLA-Library=" + ":".join(libs),
         "-cp", JAR, "tlc2.TLC", "-workers", str(workers or NCPU), "-metadir", meta,
         "-noGenerateSpecTE", "-config", cfgp,
     ]
@@ -91,6 +94,8 @@ def run_tlc(
         p = subprocess.run(cmd, env=e, capture_output=True, text=True, timeout=timeout, cwd=run.dir)
     except subprocess.TimeoutExpired as ex:
         raise MachineryError(f"TLC timeout on {name}") from ex
+    finally:
+        shutil.rmtree(jtmp, ignore_errors=True)
     out = p.stdout + p.stderr
     logp = os.path.join(run.dir, f"{name}.tlc.log")
     with open(logp, "w") as fh:
